@@ -233,9 +233,11 @@ def sigTot (p : P3 K) (nd : Node K) : K :=
   Transc.sqrt ((p.p0 * nd.l) * (p.p0 * nd.l) + (p.p1 * nd.m) * (p.p1 * nd.m)
     + (p.p2 * nd.n) * (p.p2 * nd.n))
 
-/-- `calculate_shear_stress`: `sqrt(sigma² - sigma_n²)` -/
+/-- `calculate_shear_stress`: `sqrt(np.maximum(sigma² - sigma_n², 0.0))` (the clip keeps the
+orientations where the traction is normal and the difference rounds to a tiny negative number;
+before a902588 those became NaN and were dropped by `np.nansum`) -/
 def tauOf (p : P3 K) (nd : Node K) : K :=
-  Transc.sqrt (sigTot p nd * sigTot p nd - sigN p nd * sigN p nd)
+  Transc.sqrt (maxNP (sigTot p nd * sigTot p nd - sigN p nd * sigN p nd) 0)
 
 /-! ## WNTSA -/
 
@@ -295,12 +297,24 @@ def kbarF (bm : BModel) (nu cbar a : K) : K :=
   let s2 := Transc.sin (2 * a)
   match bm with
   | .mtsG => (1 / 2) * (c * c + Transc.sqrt (Transc.pow c 4 + (s * s) * (c * c)))
-  | .mtsP => (1 / 2) * (c * c + Transc.sqrt (Transc.pow c 4 + (s2 * s2) / (2 - nu * nu)))
+  | .mtsP => (1 / 2) * (c * c + Transc.sqrt (Transc.pow c 4 + (s2 * s2) / ((2 - nu) * (2 - nu))))
   | .cseG => c
   | .cseP => Transc.sqrt (Transc.pow c 4 + (s2 * s2) / ((2 - nu) * (2 - nu)))
   | .smmG => (1 / 2) * (c * c + Transc.sqrt (Transc.pow c 4 + (s2 * s2) / (cbar * cbar)))
   | .smmP => (1 / 2) * (c * c + Transc.sqrt (Transc.pow c 4
       + (4 * (s2 * s2)) / ((cbar * cbar) * ((nu - 2) * (nu - 2)))))
+
+/-- `MTSModelPennyShapedFlaw.calculate_kbar` as it was coded at the pinned commit (defect F28,
+repaired by 68740bd): `sin²2A / (2 - ν²)` where the model's own equivalent stress implies
+`sin²2A / (2 - ν)²`.  Kept as the reference for the witness theorem `pinned_mtsP_defect`. -/
+def kbarFPinnedMtsP (nu a : K) : K :=
+  let c := Transc.cos a
+  let s2 := Transc.sin (2 * a)
+  (1 / 2) * (c * c + Transc.sqrt (Transc.pow c 4 + (s2 * s2) / (2 - nu * nu)))
+
+/-- `kbar` with the pinned MTS/penny-shaped integrand -/
+def kbarPinnedMtsP (nu m da db : K) (grid : List (Node K)) : K :=
+  Consts.pi / sumL (grid.map fun nd => 2 * (Transc.pow (kbarFPinnedMtsP nu nd.a) m * nd.s * da * db))
 
 /-- `kbar = π / Σ 2 (f(A)^m sin A dα dβ)` -/
 def kbar (bm : BModel) (nu cbar m da db : K) (grid : List (Node K)) : K :=
